@@ -89,8 +89,10 @@ def _c14_small(args):
                 for c in xs:
                     out.append(x_bits.observe_shift(fx, np, [pid], d, mode, tx, [c], n, ovf=ovf, scalar=True))
                 out.append(x_bits.observe_shift(fx, np, [pid], d, mode, tx, xs, n, ovf=ovf))
-                out.append(x_bits.observe_shift(fx, np, [pid], d, mode, tx, xs, n, ovf=ovf, hist=['inplace', 'view', 'elementwise', 'resign', 'intfmt', 'fortran', 'transposed'][(n + idx) % 7]))
+                out.append(x_bits.observe_shift(fx, np, [pid], d, mode, tx, xs, n, ovf=ovf, hist=['inplace', 'view', 'elementwise', 'resign', 'intfmt', 'fortran', 'transposed', 'intval'][(n + idx) % 8]))
                 out.append(x_bits.observe_shift(fx, np, [pid], d, mode, tx, [xs[(n + idx) % len(xs)]], n, ovf=ovf, scalar=True, hist='inplace'))
+                out.append(x_bits.observe_shift(fx, np, [pid], d, mode, tx, xs, n, ovf=ovf, iop=True, hist=[None, 'intval', 'inplace', 'intfmt'][(n + idx) % 4]))
+                out.append(x_bits.observe_shift(fx, np, [pid], d, mode, tx, [xs[(n + idx + 1) % len(xs)]], n, ovf=ovf, scalar=True, iop=True, hist=[None, 'intval', 'element'][(n + idx) % 3]))
                 for c in xs:
                     for dd in sorted({lo, hi, 0, 1, 2, 4} & set(xs)):
                         if (c + dd + n + idx) % 4 == 0 or tier == 'thorough':
